@@ -9,7 +9,7 @@ PROPERTY = "C13"
 LEVEL = "exploration"
 ENCODED = ["twisted.internet.base:ReactorBase.callFromThread",
            "twisted.internet.base:ReactorBase.runUntilCurrent"]
-BOUNDS = {"quick": {"len": 6}, "thorough": {"len": 8}}
+BOUNDS = {"quick": {"len": 6}, "thorough": {"len": 7}}
 B = {}
 P = 3       # external logical producers 0..2; producer id 3 is the reactor thread itself (nested call)
 BOUNDS_TEXT = ("every sequentially-consistent interleaving of total length <= len of: producer p (of 3) issues "
@@ -191,7 +191,7 @@ def _shards(tier):
     n = BOUNDS[tier]["len"]
     if tier == "quick":
         out = [("dk == -1", "len(ev) == %d" % n), ("dk == -1", "len(ev) < %d" % n),
-               ("dk >= 0", "len(ev) < %d" % (n - 1))]
+               ("dk >= 0", "len(ev) < %d" % (n - 1), "dq < 2"), ("dk >= 0", "len(ev) < %d" % (n - 1), "dq >= 2")]
         out += [("dk == %d" % k, "len(ev) == %d" % (n - 1), q) for k in range(n - 1) for q in ("dq < 2", "dq >= 2")]
         return out
     # thorough: split further on the last events (always satisfiable for len >= 3)
@@ -199,7 +199,8 @@ def _shards(tier):
     out += [("dk == -1", "len(ev) == %d" % n, "ev[-1] == %d" % a, "ev[-2] == %d" % b)
             for a in range(P + 1) for b in range(P + 1)]
     out += [("dk == %d" % k, "len(ev) == %d" % ln, "dq == %d" % q, "ev[-1] == %d" % a)
-            for ln in (n - 2, n - 1) for k in range(ln) for q in range(P + 1) for a in range(P + 1)]
+            for ln in (n - 2, n - 1) for k in range(ln) for q in range(P + 1) for a in range(P + 1)
+            if not (k == ln - 1 and a == P)]      # dk == ln - 1 needs ln appends: the last event is no iteration
     return out
 
 
